@@ -105,19 +105,33 @@ def push_yield_rule(run, f, rid):
         TLS_TS: {SUS + "::until_with": {"push_front"}, SUS + "::timestamp": {"pop_front"}},
         TLS_CANCEL: {SUS + "::cancel": {"push_front"}, SUS + "::is_cancel": {"pop_front"}},
     }
+    from rules.common import owners
     for k in (TLS_TS, TLS_CANCEL):
-        got = touch.get(k, {})
+        # a toucher that is not one of the four functions itself but can only be entered from them (a helper cut out of
+        # until_with / cancel) acts on their behalf: its operations are folded into those owners.  A toucher that can be
+        # entered from anywhere else stays in the map under its own name and fails the comparison.
+        got = {}
+        for fn_, ops_ in touch.get(k, {}).items():
+            if fn_ in want[k]:
+                got.setdefault(fn_, set()).update(ops_)
+                continue
+            own = owners(f, fn_, set(want[k]))
+            if own:
+                for o in own:
+                    got.setdefault(o, set()).update(ops_)
+            else:
+                got.setdefault(fn_, set()).update(ops_)
         if got == want[k]:
             run.ok(rid, k + "/owners", {fn.rsplit("::", 1)[1]: sorted(v) for fn, v in got.items()})
         else:
             extra = {fn: sorted(v) for fn, v in got.items() if want[k].get(fn) != v}
             run.fail(rid, k + "/owners", "core/src/coroutine/suspender.rs", "the per-yield request queue %s must be touched only by its producer (push_front, then yield) and its consumer (pop_front); found %s" % (k.rsplit("::", 1)[1], extra or "missing " + str(sorted(set(want[k]) - set(got)))))
     for fn in (SUS + "::until_with", SUS + "::cancel"):
-        b = need(run, rid, f, fn)
+        b = unit(run, rid, f, fn)      # the thread-local closure and any request_*() helper are part of the function
         if b is None:
             continue
         cfg = Cfg(b)
-        wc = find_calls(b, callee_is("std::thread::LocalKey::with"))
+        wc = find_calls(b, callee_is("std::collections::VecDeque::push_front", "std::collections::VecDeque::push_back"))
         sw = [x for (x, t) in find_calls(b, callee_is(SUS + "::suspend_with"))]
         ok = len(wc) == 1 and sw and cfg.must_pass(cfg.after(wc[0][0]), sw)[0] and not cfg.in_cycle(wc[0][0])
         if ok:
@@ -125,11 +139,14 @@ def push_yield_rule(run, f, rid):
         else:
             run.fail(rid, fn + "/push-then-yield", b.loc(), "%s pushes a request and can return without yielding: the request would be attributed to a later yield" % fn.rsplit("::", 1)[1])
     # any other function that pushes must also yield (covered by owners); values pushed
-    b = need(run, rid, f, SUS + "::until_with::{closure#0}")
+    b = unit(run, rid, f, SUS + "::until_with")
     if b is not None:
         du = DefUse(b)
         pf = find_calls(b, callee_is("std::collections::VecDeque::push_front"))
-        ok = len(pf) == 1 and any(int(x) in b.upvars and b.upvars[int(x)] == "timestamp" for x in backward(b, pf[0][1]["args"][1], du, through_calls="none").fields if x.isdigit())
+        ok = False
+        if len(pf) == 1:
+            vs = backward(b, pf[0][1]["args"][1], du, at=(pf[0][0], "term"), through_calls="none")
+            ok = {b.name_of(p_) for p_ in vs.params} == {"timestamp"} and not vs.binops()
         if ok:
             run.ok(rid, "until_with/value", "pushes its own timestamp argument")
         else:
